@@ -30,7 +30,7 @@ ASSUMPTIONS = ["local writes are atomic-or-absent, so 'error after effect' is on
                "S3 'storage error' = a permanent ClientError (AccessDenied), which the retry layer does not mask"]
 
 STYLES = {"append": ["records", "with_auto", "with_commit", "explicit"], "multi": ["with_auto", "with_commit", "explicit"],
-          "delete": ["with_auto", "with_commit", "explicit"], "expire": ["with_commit", "explicit"], "delete_snapshot": ["direct"]}
+          "delete": ["with_auto", "with_commit", "explicit"], "expire": ["with_commit", "explicit"], "delete_snapshot": ["direct"], "replace": ["with_commit"]}
 
 
 def scenarios(tier):
@@ -41,7 +41,7 @@ def scenarios(tier):
             for sty in styles:
                 if tier == "quick" and w != "local" and sty not in ("records", "with_auto", "with_commit", "direct"):
                     continue
-                if tier == "quick" and w == "s3plain" and op not in ("append", "delete"):
+                if tier == "quick" and w == "s3plain" and op not in ("append", "delete", "replace"):
                     continue
                 out.append({"world": w, "op": op, "style": sty})
     # partial deletes (the manifest that lists the deleted file is rewritten, the old one stays referenced by the older snapshots)
@@ -88,6 +88,10 @@ def do_op(t, sc, pre, holder=None):
             tx.append_data(rows2)
         elif op == "delete":
             tx.delete_files([pre["del_path"]])
+        elif op == "replace":
+            # one transaction removes a file and adds its replacement: ONE commit point
+            tx.delete_files([pre["del_path"]])
+            tx.append_data(rows1)
         elif op == "expire":
             tx.expire_snapshots(pre["cutoff"])
 
@@ -146,6 +150,11 @@ def classify(world, sc, pre):
     elif op == "delete":
         cur = current_snapshot(v)
         if len(new) == 1 and ids[:-1] == pre["ids"] and set(cur["files"]) == pre["files"] - {pre["del_path"]}:
+            return "post", v
+    elif op == "replace":
+        cur = current_snapshot(v)
+        gone = rows_multiset([r for r in pre["by_id"][pre["current_id"]]["rows_by_file"].get(pre["del_path"], [])]) if pre.get("current_id") in pre["by_id"] else rows_multiset([])
+        if len(new) == 1 and ids[:-1] == pre["ids"] and pre["del_path"] not in cur["files"] and rows == (pre["rows"] - gone) + rows_multiset([{"k": 100, "s": "x"}]) and v["current_id"] == new[0]:
             return "post", v
     elif op == "expire":
         want = [i for i in pre["ids"] if pre["by_id"][i]["ts"] >= pre["cutoff"] or i == pre["ids"][-1]]
